@@ -2058,3 +2058,260 @@ Proof.
     + unfold bindM at 1.
       destruct (get_list_tail_loop fuel fuel v v i s3); cbn in *; auto; contradiction.
 Qed.
+
+Lemma render_fail_bind {A B} (m : M A) (f : A -> M B) s : render_fail (m s) -> render_fail (bindM m f s).
+Proof. unfold bindM. destruct (m s); cbn; auto; contradiction. Qed.
+
+(* --------------------------------------------------------------- list->vector *)
+Lemma pchain_end_deref h v cells e :
+  pchain h v cells e -> exists ce, heap_deref h e = Ok ce /\ is_pair ce = false.
+Proof. intros Hc. induction Hc; eauto. Qed.
+
+Lemma l2v_loop_spec s v cells e :
+  pchain (hp s) v cells e ->
+  forall f acc c, heap_deref (hp s) v = Ok c -> (length cells < f)%nat ->
+  exists ce, heap_deref (hp s) e = Ok ce /\ is_pair ce = false /\
+    l2v_loop f c acc s = ROk (rev acc ++ map (fun ad => VPtr (fst ad)) cells, ce) s.
+Proof.
+  intros Hc. induction Hc as [v c0 Hd Hp | v a d cells e Hd Hc IH]; intros f acc c Hdc Hf.
+  - rewrite Hd in Hdc. injection Hdc as <-. exists c0. repeat split; auto.
+    destruct f as [|f]; [cbn in Hf; lia|]. cbn [l2v_loop]. rewrite Hp. cbn [map]. now rewrite app_nil_r.
+  - rewrite Hd in Hdc. injection Hdc as <-.
+    destruct f as [|f]; [cbn in Hf; lia|]. cbn [l2v_loop is_pair as_car as_cdr].
+    assert (Hd' : exists c', heap_deref (hp s) (VPtr d) = Ok c') by (inversion Hc; eauto).
+    destruct Hd' as (c' & Hd').
+    cbn [length] in Hf. destruct (IH f (VPtr a :: acc) c' Hd' ltac:(lia)) as (ce & He & Hpe & Hl).
+    exists ce. repeat split; auto.
+    unfold bindM at 1, ret at 1. unfold bindM at 1, ret at 1.
+    unfold bindM at 1. rewrite hderef_eq, Hd'. unfold lift. rewrite Hl.
+    cbn [rev map fst]. now rewrite <- app_assoc.
+Qed.
+
+Lemma nil_deref s v c :
+  val_ok s v -> heap_deref (hp s) v = Ok c -> (absv s v = AImm VNil <-> c = VNil).
+Proof.
+  intros Hv Hc. destruct (val_deref s v Hv) as (c' & Hc' & Ha & Hd). rewrite Hc in Hc'. injection Hc' as <-.
+  rewrite Ha. destruct v; cbn [val_ok] in Hv; try contradiction;
+    try (cbn [heap_deref] in Hc; injection Hc as <-; split; congruence).
+  destruct c; cbn [data_cell cell_val] in *; try contradiction; split; congruence.
+Qed.
+
+Theorem list_to_vector_refines fuel s v xs e :
+  values_are_refs s -> val_ok s v -> called_with s [v] ->
+  achain (abs s) (absv s v) xs e -> (length xs < fuel)%nat ->
+  (e = AImm VNil ->
+     exists p vid s', call_builtin (list_to_vector fuel) s = ROk (VPtr p) s' /\
+       absv s' (VPtr p) = ALoc (LVec vid) /\ a_vec (abs s) vid = None /\
+       a_vec (abs s') vid = Some xs /\
+       pres s s' /\ values_are_refs s' /\ ~ live (hp s) p /\ target_ok s' p) /\
+  (e <> AImm VNil -> render_fail (call_builtin (list_to_vector fuel) s)).   (* improper list: fix F16 *)
+Proof.
+  intros W Hv H Hch Hfuel. unfold called_with in H. cbn [len length rev app N.of_nat Pos.of_succ_nat] in H.
+  set (s1 := with_sp s (sp s - 1)).
+  set (s2 := with_sp s1 (sp s1 - 1)).
+  pose proof (stack_top_tail _ _ _ _ H) as H1.
+  destruct (achain_pchain s W _ _ _ Hch v Hv eq_refl) as (cells & e' & Hpc & Hm & He & Hve).
+  assert (Hlen : length cells = length xs) by (rewrite <- Hm; now rewrite map_length).
+  destruct (val_deref s v Hv) as (c & Hc & _ & _).
+  destruct (l2v_loop_spec s2 v cells e' Hpc fuel [] c Hc ltac:(lia)) as (ce & Hce & Hpe & Hl).
+  cbn [rev app] in Hl. change (hp s2) with (hp s) in Hce.
+  assert (Hnil : e = AImm VNil <-> ce = VNil) by (rewrite <- He; apply (nil_deref s e' ce Hve Hce)).
+  assert (Hrun : list_to_vector fuel s =
+    if negb (is_pair c) then (if is_nil c then vec_new [] s2 else fail_cell fuel c s2)
+    else if negb (is_nil ce) then RErr E_OTHER [] s2
+    else vec_new (map (fun ad => VPtr (fst ad)) cells) s2).
+  { unfold list_to_vector. pop_argc_tac H s 1 1 (Some 1). fold s1.
+    unfold bindM at 1. rewrite (pop_value_top s1 v [] H1). fold s2. unfold lift.
+    change (hp s1) with (hp s). rewrite Hc.
+    destruct (negb (is_pair c)); [destruct (is_nil c); reflexivity|].
+    rewrite (bind_ok _ _ _ _ _ Hl). destruct (negb (is_nil ce)); reflexivity. }
+  (* when the first cell is not a pair the chain is empty and ends in that cell *)
+  assert (Hshort : is_pair c = false -> cells = [] /\ ce = c).
+  { intros Hp. inversion Hpc; subst.
+    - split; [reflexivity|]. rewrite Hce in Hc. now injection Hc.
+    - rewrite Hc in H0. injection H0 as ->. discriminate. }
+  split.
+  - intros Ee. assert (Ece : ce = VNil) by (now apply Hnil).
+    assert (Hels : Forall (val_ok s2) (map (fun ad => VPtr (fst ad)) cells)).
+    { destruct (pchain_cells_ok s v cells e' W Hv Hpc) as (Hf & _).
+      apply Forall_forall. intros y Hy. apply in_map_iff in Hy. destruct Hy as (ad & <- & Hin).
+      rewrite Forall_forall in Hf. exact (proj1 (Hf ad Hin)). }
+    destruct (wrap_new_vector s2 _ W Hels) as (p & vid & s' & E & Ep & Hnone & Hvv & R).
+    exists p, vid, s'. refine (conj _ (conj Ep (conj Hnone (conj _ R)))).
+    + unfold call_builtin. unfold bindM at 1. rewrite Hrun.
+      destruct (is_pair c) eqn:Epc; cbn [negb].
+      * subst ce. cbn [is_nil negb]. exact E.
+      * destruct (Hshort eq_refl) as (-> & <-). subst ce. cbn [is_nil map]. cbn [map] in E. exact E.
+    + rewrite Hvv, map_map. f_equal. exact Hm.
+  - intros Ene. assert (Ece : ce <> VNil) by (intros E0; apply Ene; now apply Hnil).
+    unfold call_builtin. apply render_fail_bind. rewrite Hrun.
+    destruct (is_pair c) eqn:Epc; cbn [negb].
+    + destruct ce; try contradiction; cbn [is_nil negb]; exact I.
+    + destruct (Hshort eq_refl) as (-> & <-).
+      destruct ce; try contradiction; cbn [is_nil]; apply fail_cell_render_fail.
+Qed.
+
+(* ------------------------------------------------- lists built by the builtins *)
+Lemma a_pair_live s p x : heap_ok (hp s) -> a_pair (abs s) p = Some x -> live (hp s) p.
+Proof.
+  intros Hok Hp. cbn [abs a_pair] in Hp.
+  destruct (heap_get (hp s) p) as [c| | |] eqn:E; try discriminate.
+  destruct c; try discriminate. eapply nonblank_live; eauto. discriminate.
+Qed.
+
+Lemma achain_pres s s' av xs e :
+  values_are_refs s -> pres s s' -> achain (abs s) av xs e -> achain (abs s') av xs e.
+Proof.
+  intros W P Hc. induction Hc as [v Hn | p x d xs e Hp Hc IH]; [now constructor|].
+  econstructor; [|exact IH]. rewrite (pres_a_pair s s' p W P); [exact Hp|].
+  eapply a_pair_live; eauto. exact (proj1 W).
+Qed.
+
+Lemma aprefix_pres s s' av ps xs e :
+  values_are_refs s -> pres s s' -> aprefix (abs s) av ps xs e -> aprefix (abs s') av ps xs e.
+Proof.
+  intros W P Hc. induction Hc as [v | p x d ps xs e Hp Hc IH]; [now constructor|].
+  econstructor; [|exact IH]. rewrite (pres_a_pair s s' p W P); [exact Hp|].
+  eapply a_pair_live; eauto. exact (proj1 W).
+Qed.
+
+Lemma aprefix_snoc a v ps xs p x d :
+  aprefix a v ps xs (ALoc (LPair p)) -> a_pair a p = Some (x, d) ->
+  aprefix a v (ps ++ [p]) (xs ++ [x]) d.
+Proof.
+  intros Hc Hp. remember (ALoc (LPair p)) as e eqn:Ee.
+  induction Hc as [v | q y d0 ps xs e Hq Hc IH]; subst.
+  - cbn [app]. econstructor; [exact Hp | constructor].
+  - cbn [app]. econstructor; [exact Hq | now apply IH].
+Qed.
+
+Lemma aprefix_achain a v ps xs e ys e' :
+  aprefix a v ps xs e -> achain a e ys e' -> achain a v (xs ++ ys) e'.
+Proof.
+  intros Hc Hr. induction Hc as [v | q y d0 ps xs e Hq Hc IH]; [exact Hr|].
+  cbn [app]. econstructor; [exact Hq | now apply IH].
+Qed.
+
+Definition fresh_in (s : vm) (ps : list N) : Prop := Forall (fun p => ~ live (hp s) p) ps.
+
+Lemma fresh_in_pres s s' ps : pres s s' -> fresh_in s' ps -> fresh_in s ps.
+Proof.
+  intros (A1 & _) H. unfold fresh_in in *. eapply Forall_impl; [|exact H].
+  intros p Hn Hl. apply Hn. now apply A1.
+Qed.
+
+(* one more pair in front of a value: the CONS step of every list-building loop *)
+Lemma cons_cell s ca tp :
+  values_are_refs s -> target_ok s ca -> target_ok s tp ->
+  exists p s', hput (VPair ca tp) s = ROk (VPtr p) s' /\ pres s s' /\ values_are_refs s' /\
+    target_ok s' p /\ ~ live (hp s) p /\
+    absv s' (VPtr p) = ALoc (LPair p) /\
+    a_pair (abs s') p = Some (absv s (VPtr ca), absv s (VPtr tp)) /\
+    st s' = st s /\ stack s' = stack s /\ sp s' = sp s.
+Proof.
+  intros W Ta Tt.
+  assert (Hn : new_cell_ok s (VPair ca tp)) by (split; assumption).
+  destruct (hput_new s _ W Hn) as (p & h' & E & F).
+  destruct (fresh_wf s _ p h' W Hn F) as (W' & T').
+  pose proof (fresh_pres _ _ _ _ F) as P.
+  exists p, (with_heap s h').
+  destruct F as (_ & Hnl & _ & _ & Hg & _).
+  refine (conj E (conj P (conj W' (conj T' (conj Hnl (conj _ (conj _ (conj eq_refl (conj eq_refl eq_refl))))))))).
+  - cbn [absv with_heap hp]. now rewrite Hg.
+  - cbn [abs a_pair with_heap hp]. rewrite Hg. f_equal. f_equal.
+    + apply (pres_absv s (with_heap s h') (VPtr ca) P Ta).
+    + apply (pres_absv s (with_heap s h') (VPtr tp) P Tt).
+Qed.
+
+Lemma v2l_loop_spec rl : forall s tp,
+  values_are_refs s -> Forall (val_ok s) rl -> target_ok s tp ->
+  exists r s' locs, v2l_loop rl (VPtr tp) s = ROk (VPtr r) s' /\ pres s s' /\ values_are_refs s' /\
+    target_ok s' r /\
+    aprefix (abs s') (absv s' (VPtr r)) locs (rev (map (absv s) rl)) (absv s (VPtr tp)) /\
+    fresh_in s locs /\ st s' = st s.
+Proof.
+  induction rl as [|x r IH]; intros s tp W Hrl Tt; cbn [v2l_loop].
+  - exists tp, s, []. refine (conj eq_refl (conj (pres_refl s) (conj W (conj Tt (conj _ (conj _ eq_refl)))))).
+    + cbn [map rev]. constructor.
+    + constructor.
+  - inversion Hrl as [|? ? Hx Hr]; subst.
+    destruct (hput_val s x W Hx) as (ca & s1 & E1 & P1 & W1 & T1 & A1 & _ & _ & Hx1).
+    assert (Tt1 : target_ok s1 tp) by (eapply pres_target_ok; eauto).
+    destruct (cons_cell s1 ca tp W1 T1 Tt1) as (p & s2 & E2 & P2 & W2 & T2 & Hnl2 & Ap2 & Hp2 & Hx2 & _).
+    assert (P12 : pres s s2) by (eapply pres_trans; eauto).
+    assert (Hr2 : Forall (val_ok s2) r).
+    { eapply Forall_impl; [|exact Hr]. intros y. now apply pres_val_ok. }
+    destruct (IH s2 p W2 Hr2 T2) as (r' & s' & locs & E3 & P3 & W3 & T3 & Hpre & Hfr & Hx3).
+    exists r', s', (locs ++ [p]).
+    refine (conj _ (conj _ (conj W3 (conj T3 (conj _ (conj _ _)))))).
+    + rewrite (bind_ok _ _ _ _ _ E1). cbn [as_ptr]. unfold bindM at 1, ret at 1. unfold bindM at 1, ret at 1.
+      rewrite (bind_ok _ _ _ _ _ E2). exact E3.
+    + eapply pres_trans; eauto.
+    + cbn [map rev]. rewrite Ap2 in Hpre.
+      assert (Em : map (absv s2) r = map (absv s) r).
+      { apply map_ext_in. intros y Hy. apply (pres_absv s s2 y P12). rewrite Forall_forall in Hr. auto. }
+      rewrite Em in Hpre.
+      eapply aprefix_snoc; [exact Hpre|].
+      rewrite (pres_a_pair s2 s' p W2 P3) by (exact (proj1 T2)).
+      rewrite Hp2. f_equal. f_equal; [exact A1|].
+      apply (pres_absv s s1 (VPtr tp) P1 Tt).
+    + unfold fresh_in. apply Forall_app. split.
+      * apply (fresh_in_pres s s2 locs P12 Hfr).
+      * constructor; [|constructor]. intros Hl. apply Hnl2. destruct P1 as (Q1 & _). auto.
+    + congruence.
+Qed.
+
+Theorem vector_to_list_refines s v :
+  values_are_refs s -> val_ok s v -> called_with s [v] ->
+  match absv s v with
+  | ALoc (LVec vid) =>
+      exists xs r s' locs, a_vec (abs s) vid = Some xs /\
+        call_builtin vector_to_list s = ROk r s' /\
+        aprefix (abs s') (absv s' r) locs xs (AImm VNil) /\ fresh_in s locs /\
+        pres s s' /\ values_are_refs s' /\ val_ok s' r
+  | _ => exists s', call_builtin vector_to_list s = RErr E_OTHER [] s'
+  end.
+Proof.
+  intros W Hv H. unfold called_with in H. cbn [len length rev app N.of_nat Pos.of_succ_nat] in H.
+  set (s1 := with_sp s (sp s - 1)).
+  set (s2 := with_sp s1 (sp s1 - 1)).
+  pose proof (stack_top_tail _ _ _ _ H) as H1.
+  pose proof (pop_vector_spec s1 v [] Hv H1) as Pv. change (absv s1 v) with (absv s v) in Pv. fold s2 in Pv.
+  destruct (absv s v) as [w|l|] eqn:Ea.
+  1,3: exists s2; assert (Herr : vector_to_list s = RErr E_OTHER [] s2)
+         by (unfold vector_to_list; pop_argc_tac H s 1 1 (Some 1); fold s1;
+             rewrite (bind_err _ _ _ _ _ _ Pv); reflexivity);
+       unfold call_builtin; rewrite (bind_err _ _ _ _ _ _ Herr); reflexivity.
+  destruct l as [p|vid|sid|p].
+  1,3,4: exists s2; assert (Herr : vector_to_list s = RErr E_OTHER [] s2)
+         by (unfold vector_to_list; pop_argc_tac H s 1 1 (Some 1); fold s1;
+             rewrite (bind_err _ _ _ _ _ _ Pv); reflexivity);
+       unfold call_builtin; rewrite (bind_err _ _ _ _ _ _ Herr); reflexivity.
+  destruct (vec_registered s v vid W Ea) as (l & Hl & Hal & Hfl).
+  (* the fresh cell holding () *)
+  assert (Hnil : new_cell_ok s2 VNil) by exact I.
+  destruct (hput_new s2 VNil W Hnil) as (p0 & h0 & E0 & F0).
+  destruct (fresh_wf s2 VNil p0 h0 W Hnil F0) as (W0 & T0).
+  pose proof (fresh_pres _ _ _ _ F0) as P0.
+  set (s3 := with_heap s2 h0) in *.
+  assert (Hrl : Forall (val_ok s3) (rev l)).
+  { apply Forall_rev. eapply Forall_impl; [|exact Hfl]. intros y. apply (pres_val_ok s s3 y P0). }
+  destruct (v2l_loop_spec (rev l) s3 p0 W0 Hrl T0) as (r & s' & locs & E3 & P3 & W3 & T3 & Hpre & Hfr & Hx3).
+  exists (map (absv s) l), (VPtr r), s', locs.
+  refine (conj Hal (conj _ (conj _ (conj _ (conj _ (conj W3 T3)))))).
+  - assert (Hok : vector_to_list s = ROk (VPtr r) s').
+    { unfold vector_to_list. pop_argc_tac H s 1 1 (Some 1). fold s1.
+      rewrite (bind_ok _ _ _ _ _ Pv).
+      rewrite (bind_ok _ _ _ _ _ (vec_get_ok s2 vid l Hl)).
+      rewrite (bind_ok _ _ _ _ _ E0). fold s3. exact E3. }
+    unfold call_builtin. rewrite (bind_ok _ _ _ _ _ Hok). reflexivity.
+  - rewrite map_rev, rev_involutive in Hpre.
+    assert (Em : map (absv s3) l = map (absv s) l).
+    { apply map_ext_in. intros y Hy. apply (pres_absv s s3 y P0). rewrite Forall_forall in Hfl. auto. }
+    rewrite Em in Hpre.
+    assert (En : absv s3 (VPtr p0) = AImm VNil).
+    { destruct F0 as (_ & _ & _ & _ & Hg & _). cbn [absv s3 with_heap hp]. now rewrite Hg. }
+    now rewrite En in Hpre.
+  - apply (fresh_in_pres s s3 locs P0 Hfr).
+  - eapply pres_trans; eauto.
+Qed.
